@@ -1,6 +1,6 @@
 //! C07 — observationally neutral encoding choices do not change the result (metamorphic).
 use crate::encode::encode;
-use crate::gen::{build_plan, build_sprite, GenCfg, Tape};
+use crate::gen::{build_plan_padded as build_plan, build_sprite, GenCfg, Tape};
 use crate::observe::observe;
 use crate::runner::*;
 use asefile::AsepriteFile;
